@@ -15,7 +15,7 @@ from symx import core
 
 PID = "C17"
 EXPLANATION = (
-    "The solver chooses the initial request (method GET/POST/PUT/HEAD, body none/bytes, caller headers Authorization, "
+    "The solver chooses the initial request (method GET/POST/PUT/HEAD, body none/bytes (Content-Length or chunked), caller headers Authorization, "
     "Cookie, Proxy-Authorization, per-request cookies, max_redirects) and a redirect chain of up to 3 hops, each with a "
     "status from {301,302,303,307,308} and a Location form from {same origin path, other port, other scheme, other host, "
     "URL with user:pass@, relative, scheme-relative, non-HTTP scheme, unparsable, missing}; the jar is pre-loaded for two "
@@ -70,6 +70,8 @@ def chain(ctx, nhops=2, first_loc=None, methods=("GET", "POST", "PUT", "HEAD"), 
 
     method = ctx.pick("method", list(methods))
     has_body = ctx.flag("has_body") if method in ("POST", "PUT") else False
+    # (quick tier: PUT bodies are chunked, POST bodies have a Content-Length; thorough: both ways for both)
+    chunked_body = (method == "PUT" if small else ctx.flag("chunked_request_body")) if has_body else False
     send_auth = ctx.flag("auth_header")
     send_cookie_hdr = ctx.flag("cookie_header")
     send_req_cookies = ctx.flag("request_cookies")
@@ -103,6 +105,8 @@ def chain(ctx, nhops=2, first_loc=None, methods=("GET", "POST", "PUT", "HEAD"), 
         kw["cookies"] = {"rc": "1"}
     if has_body:
         kw["data"] = b"payload"
+        if chunked_body:
+            kw["chunked"] = True
     result = {}
 
     async def go():
@@ -117,6 +121,7 @@ def chain(ctx, nhops=2, first_loc=None, methods=("GET", "POST", "PUT", "HEAD"), 
     task = asyncio.Task(go(), loop=loop)
     loop.run_ready()
     recorded = []  # (origin, method, path, headers dict, body)
+    garbage = []
 
     def parse_new():
         """scripted peers: answer every new request according to the chain"""
@@ -132,11 +137,26 @@ def chain(ctx, nhops=2, first_loc=None, methods=("GET", "POST", "PUT", "HEAD"), 
                 if e < 0:
                     break
                 head = raw[pos:e].split(b"\r\n")
+                if len(head[0].split(b" ")) != 3:
+                    # bytes that are no request at all (e.g. a stray chunk terminator after a body-less request)
+                    garbage.append(raw[pos:e + 4][:40])
+                    pos = e + 4
+                    continue
                 m, p, _v = head[0].split(b" ")
                 hd = {}
                 for ln in head[1:]:
                     k, _, v = ln.partition(b":")
                     hd.setdefault(k.strip().lower().decode(), []).append(v.strip().decode("latin1"))
+                if "chunked" in ",".join(hd.get("transfer-encoding", [])).lower():
+                    # 7\r\npayload\r\n0\r\n\r\n
+                    end = raw.find(b"0\r\n\r\n", e + 4)
+                    if end < 0:
+                        break
+                    chunk = raw[e + 4:end]
+                    body = chunk.split(b"\r\n", 1)[1].rsplit(b"\r\n", 1)[0] if b"\r\n" in chunk else b""
+                    pos = end + 5
+                    reqs.append((m.decode(), p.decode(), hd, body))
+                    continue
                 blen = int(hd.get("content-length", ["0"])[0])
                 body = raw[e + 4:e + 4 + blen]
                 pos = e + 4 + blen
@@ -161,7 +181,7 @@ def chain(ctx, nhops=2, first_loc=None, methods=("GET", "POST", "PUT", "HEAD"), 
             break
         loop.run_ready()
     loop.run_ready()
-    trace = {"method": method, "body": has_body, "hops": hops, "max_redirects": max_redirects,
+    trace = {"method": method, "body": has_body, "chunked": chunked_body, "hops": hops, "max_redirects": max_redirects,
              "auth": send_auth, "cookie_hdr": send_cookie_hdr, "req_cookies": send_req_cookies,
              "proxy_auth": send_proxy_auth}
 
@@ -172,6 +192,8 @@ def chain(ctx, nhops=2, first_loc=None, methods=("GET", "POST", "PUT", "HEAD"), 
         info.update(k2)
         return False, "inv:" + key, info
 
+    if garbage:
+        return fail("bytes-that-are-no-request-emitted", garbage=[g.decode("latin1") for g in garbage])
     if not task.done():
         task.cancel()
         loop.run_ready()
